@@ -56,6 +56,7 @@ structure Ctx where
   nodesLimit : Nat                        -- the only field of `opt` the builder reads
   positions : Bool                        -- the `positions` cargo feature
   nsStartIdx : Nat := 1
+  xmlDeclared : Bool := false             -- the current start tag has declared `xmlns:xml` (D16 repair)
   curAttrs : List TempAttr := []          -- in push order
   awaiting : List Nat := []               -- in push order
   parentPrefixes : List Bytes := [[]]     -- top of the stack first
@@ -316,7 +317,7 @@ def processElement (c : Ctx) (e : EndKind) (tokRange : Range) : Res Ctx := do
     | _ => .panic "should be already checked by the tokenizer"
   else
     let (c, nss) ← resolveNamespaces c
-    let c := { c with nsStartIdx := c.doc.ns.treeOrder.size }
+    let c := { c with nsStartIdx := c.doc.ns.treeOrder.size, xmlDeclared := false }
     -- a failure of resolve_attributes drains nothing that is observable afterwards
     let (c, attrs) ← resolveAttributes txt c nss
     match e with
@@ -436,11 +437,11 @@ def processAttribute (c : Ctx) (range : Range) (qnameLen eqLen : Nat) (pfx loc :
       else if loc.bytes != Lit.xml && isXmlNsUri then errPos txt .unexpectedXmlUri range.1
       else do
         let ex ← c.doc.ns.exists c.nsStartIdx (some loc.bytes)
-        if ex then errPos txt (.duplicatedNamespace loc.bytes) range.1
+        if ex || (isXmlNsUri && c.xmlDeclared) then errPos txt (.duplicatedNamespace loc.bytes) range.1
         else if !isXmlNsUri then do
           let ns ← c.doc.ns.pushNs (some loc) value
           pure { c with doc := { c.doc with ns := ns } }
-        else pure c
+        else pure { c with xmlDeclared := true }
   else if pfx.bytes.isEmpty && loc.bytes == Lit.xmlns then
     if value.bytes == nsXmlUri then errPos txt .unexpectedXmlUri range.1
     else if value.bytes == nsXmlnsUri then errPos txt .unexpectedXmlnsUri range.1
